@@ -63,7 +63,15 @@ def getReq (j : Json) : Req :=
     auxOnErrors := getBool j "auxOnErrors",
     userHeaders := (getArr j "userHeaders").toList.map (fun h =>
       match getStr h "k" with
-      | "list" => HVal.list (getNat h "n") | "tuple" => HVal.tuple (getNat h "n") | _ => HVal.str) }
+      | "list" => HVal.list (getNat h "n") | "tuple" => HVal.tuple (getNat h "n") | _ => HVal.str),
+    closeListener := (match getStr j "closeListener" with
+      | "ctx" => .ctxClosedRaises | "wsgi" => .wsgiCloseRaises | _ => .none),
+    serverSkipsClose := getBool j "noclose",
+    faultBody := (match j.getObjVal? "faultBody" with
+      | .ok (.arr _) => some (natList j "faultBody")
+      | _ => none),
+    faultIter := (match getStr j "faultIter" with
+      | "generator" => .generator | "iterator" => .iterator | _ => .list) }
 
 def optNatJson : Option Nat → Json
   | none => Json.null
@@ -79,6 +87,7 @@ def evJson : Ev → Json
   | .ctxClosed => Json.arr #["closed"]
   | .wsgiClose => Json.arr #["wsgiClose"]
   | .aux => Json.arr #["aux"]
+  | .lraise => Json.arr #["lraise"]
   | .hdr k b => Json.arr #["hdr", k, b]
   | .crash c => Json.arr #["crash", c]
 
